@@ -63,6 +63,9 @@ def main(argv=None):
     ap.add_argument("--only", default=None, help="substring filter on job names (development)")
     ap.add_argument("--nproc", type=int, default=int(os.environ.get("VERIF_NPROC", "16")))
     ap.add_argument("--no-evidence", action="store_true")
+    ap.add_argument("--replay-dir", default=None, help="where replay files go (default /verif/replays/<id>)")
+    ap.add_argument("--budget", type=float, default=None,
+                    help="wall seconds for the exploration (default: harness BUDGET[tier], else 110 quick / 1500 thorough)")
     a = ap.parse_args(argv)
     pid = a.pid.upper()
     seed = int(os.environ.get("VERIF_SEED", "0") or 0)
@@ -117,7 +120,13 @@ def main(argv=None):
                   f"viol={len(r['violations'])} t={r.get('wall_s', 0):.1f}s "
                   f"{'FATAL' if r.get('fatal') else ''}", flush=True)
 
-    results = ex.run_jobs(jobs + twins, nproc=a.nproc, progress=progress)
+    budget = a.budget or float(os.environ.get("VERIF_BUDGET_S", 0) or 0) or \
+        getattr(hmod, "BUDGET", {}).get(a.tier) or (110.0 if a.tier == "quick" else 1500.0)
+    slice_s = 25.0 if a.tier == "quick" else 120.0
+    # long jobs first: the pool is FIFO and the tail is what work sharing has to spread
+    order = sorted(range(len(jobs)), key=lambda i: -float(jobs[i].get("weight", 0)))
+    jobs = [jobs[i] for i in order]
+    results = ex.run_jobs(jobs + twins, nproc=a.nproc, progress=progress, budget_s=budget, slice_s=slice_s)
     main_res = [r for r, j in zip(results, jobs + twins) if not j.get("twin")]
     twin_res = [r for r, j in zip(results, jobs + twins) if j.get("twin")]
 
@@ -138,11 +147,17 @@ def main(argv=None):
     viol_lines = []
     known_lines = []
     n_viol = 0
-    replay_dir = os.path.join(ROOT, "replays", pid)
+    replay_dir = os.path.join(a.replay_dir, pid) if a.replay_dir else os.path.join(ROOT, "replays", pid)
     seen = set()
     reported_keys = set()
     replays = []
-    max_replays = 40
+    # Every distinct witness is replayed (in parallel, clean interpreters).  Witnesses are taken
+    # round-robin over jobs and symbolic tags so that many witnesses of one (possibly known)
+    # finding cannot crowd out a different violation; replays that resolve to a listed finding do
+    # not count towards the cap, only unlisted ones do.
+    max_unlisted = 60
+    max_total = 4000
+    per_group = {}
     for r in main_res:
         for v in r["violations"]:
             blob = json.dumps({"job": r["job"], "witness": v["witness"]}, sort_keys=True)
@@ -150,33 +165,63 @@ def main(argv=None):
             if h in seen:
                 continue
             seen.add(h)
-            if len(replays) >= max_replays:
-                continue
-            os.makedirs(replay_dir, exist_ok=True)
-            path = os.path.join(replay_dir, f"{h}.json")
-            with open(path, "w") as f:
-                json.dump({"property": pid, "job": r["job"], "witness": v["witness"], "tag": v["tag"],
-                           "info": v.get("info")}, f, indent=1)
-            rr = run_replay(path)
-            rr["path"] = path
-            rr["tag"] = v["tag"]
-            replays.append(rr)
-            if not rr["reproduced"]:
-                harness_errors.append(
-                    f"counterexample {path} ({v['tag']}) did not reproduce on uninstrumented code: "
-                    f"{rr.get('detail', '')[:500]}")
-                continue
-            key = rr["key"]
-            if key in known_keys:
-                if key not in reported_keys:
-                    known_lines.append(f"KNOWN-FINDING: property={pid} {known_keys[key]['what']} [key={key}]")
-                    reported_keys.add(key)
-                os.remove(path)
-            else:
-                n_viol += 1
-                if key not in reported_keys:
-                    viol_lines.append(f"VIOLATION property={pid} replay={path}  # {key}: {rr.get('detail', '')[:300]}")
-                    reported_keys.add(key)
+            per_group.setdefault((r["job"]["name"], v["tag"]), []).append((h, r, v))
+    ordered = []
+    depth = 0
+    while any(len(g) > depth for g in per_group.values()):
+        for g in per_group.values():
+            if len(g) > depth:
+                ordered.append(g[depth])
+        depth += 1
+    ordered = ordered[:max_total]
+    skipped_replays = max(0, sum(len(g) for g in per_group.values()) - len(ordered))
+
+    def _replay_one(item):
+        h, r, v = item
+        os.makedirs(replay_dir, exist_ok=True)
+        path = os.path.join(replay_dir, f"{h}.json")
+        with open(path, "w") as f:
+            json.dump({"property": pid, "job": r["job"], "witness": v["witness"], "tag": v["tag"],
+                       "info": v.get("info")}, f, indent=1)
+        rr = run_replay(path)
+        rr["path"] = path
+        rr["tag"] = v["tag"]
+        return rr
+
+    import concurrent.futures as _cf
+
+    n_unlisted = 0
+    pos = 0
+    with _cf.ThreadPoolExecutor(max_workers=max(1, min(a.nproc, 16))) as tp:
+        while pos < len(ordered) and n_unlisted < max_unlisted:
+            batch = ordered[pos:pos + 64]
+            pos += len(batch)
+            for (h, r, v), rr in zip(batch, tp.map(_replay_one, batch)):
+                path = rr["path"]
+                replays.append(rr)
+                if not rr["reproduced"]:
+                    harness_errors.append(
+                        f"counterexample {path} ({v['tag']}) did not reproduce on uninstrumented code: "
+                        f"{rr.get('detail', '')[:500]}")
+                    continue
+                key = rr["key"]
+                if key in known_keys:
+                    if key not in reported_keys:
+                        known_lines.append(f"KNOWN-FINDING: property={pid} {known_keys[key]['what']} [key={key}]")
+                        reported_keys.add(key)
+                    os.remove(path)
+                else:
+                    n_viol += 1
+                    n_unlisted += 1
+                    if key not in reported_keys:
+                        viol_lines.append(f"VIOLATION property={pid} replay={path}  # {key}: {rr.get('detail', '')[:300]}")
+                        reported_keys.add(key)
+                    elif n_unlisted > 8:
+                        os.remove(path)
+    if pos < len(ordered) or skipped_replays:
+        incomplete_replays = len(ordered) - pos + skipped_replays
+    else:
+        incomplete_replays = 0
     for lr in lemma_results:
         if lr["status"] == "sat":
             key = lr.get("key", "lemma:" + lr["name"])
@@ -219,6 +264,8 @@ def main(argv=None):
     incomplete = []
     if timed_out:
         incomplete.append(f"{len(timed_out)} job(s) hit their time budget: {timed_out[:6]}")
+    if incomplete_replays and not viol_lines:
+        incomplete.append(f"{incomplete_replays} counterexample candidates were not replayed (cap)")
     if agg["unknown"]:
         incomplete.append(f"{agg['unknown']} solver queries returned unknown")
     if agg["realised_paths"]:
